@@ -188,6 +188,60 @@ class RefCount(FunctionContract):
                  B(self.log == [("local", ("dagrt_refcnt_<key>",), ())] and r == "<local name>"))]
 
 
+class FoInit(FunctionContract):
+    """FortranNameManager.__init__: ONE name generator, made by _make_fortran_name_generator(), serves the local, the global and
+    the function map (locals, functions and generator temporaries live in one Fortran scope; sharing the generator is what
+    keeps their identifiers apart); <t>, <dt> are predefined as dagrt_t, dagrt_dt in the global map"""
+    prop = "C13"
+    relpath = "dagrt/codegen/fortran.py"
+    qualname = "FortranNameManager.__init__"
+
+    def params(self, ctx):
+        self.gens = []
+        ctx.env["self"] = ctx.alloc(VObj(TObj("NameManager", {}), {"name_generator": VPy("<unset>"), "local_map": VPy("<unset>"),
+                                                                    "global_map": VPy("<unset>"), "function_map": VPy("<unset>")}))
+
+    def m_gen(self, ctx, it, args, kw):
+        if args or kw:
+            raise Unsupported("_make_fortran_name_generator(...) with arguments")
+        g = VPy(("generator", len(self.gens)))
+        self.gens.append(g)
+        return g
+
+    def m_map(self, ctx, it, args, kw):
+        k = {}
+        for n, v in kw.items():
+            d = ctx.deref(v)
+            k[n] = d.py if isinstance(d, VPy) else "?"
+        return VPy(("map", tuple(sorted((n, str(x)) for n, x in k.items())), len(args)))
+
+    def dict_literal(self, ctx, it, e):
+        import ast as pyast
+        return VPy(pyast.unparse(e).replace('"', "'"))
+
+    def setattr_hook(self, ctx, it, obj, name, v):
+        o = ctx.deref(obj)
+        if isinstance(obj, VRef) and isinstance(o, VObj) and name in o.fields:
+            nf = dict(o.fields)
+            nf[name] = v
+            ctx.store(obj, VObj(o.ty, nf))
+            return True
+        return False
+
+    names = property(lambda self: {"KeyToUniqueNameMap": VFunc("KeyToUniqueNameMap", self.m_map),
+                                   "_make_fortran_name_generator": VFunc("_make_fortran_name_generator", self.m_gen)})
+
+    def ensures(self, st):
+        o = st._deref(st._env["self"])
+        f = {n: getattr(st._deref(v), "py", None) for n, v in o.fields.items()}
+        g = str(("generator", 0))
+        return [("one-generator-shared-by-the-local-the-global-and-the-function-map;-<t>-<dt>-predefined",
+                 B(len(self.gens) == 1 and f.get("name_generator") == ("generator", 0)
+                   and f.get("local_map") == ("map", (("name_generator", g),), 0)
+                   and f.get("function_map") == ("map", (("name_generator", g),), 0)
+                   and f.get("global_map") == ("map", (("name_generator", g), ("start", "{'<t>': 'dagrt_t', '<dt>': 'dagrt_dt'}")), 0)))]
+
+
 PY = "dagrt/codegen/python.py"
 FO = "dagrt/codegen/fortran.py"
 G = "get_or_make_name_for_key"
@@ -195,7 +249,7 @@ G = "get_or_make_name_for_key"
 
 def units():
     return [
-        FunctionUnit(PyInit()), FunctionUnit(ClearLocals()),
+        FunctionUnit(PyInit()), FunctionUnit(ClearLocals()), FunctionUnit(FoInit()),
         FunctionUnit(NMContract(PY, "PythonNameManager", "name_global", ("_global_map", G, ("<key>",)))),
         FunctionUnit(NMContract(PY, "PythonNameManager", "name_local", ("_local_map", G, ("<key>",)), arg="local")),
         FunctionUnit(NMContract(PY, "PythonNameManager", "name_function", ("function_map", G, ("<key>",)), arg="function")),
